@@ -838,6 +838,124 @@ def repo_case_names(repo):
     return out
 
 
+# designs that carry translation metadata (explicit module / file names on the top AND on sub-components) or are
+# Verilog placeholders (hand-written source files pickled into the output, several v_libs).  The design module
+# defines prepare(top), run by the worker after elaborate() and before the translation pass (the documented
+# flow: set_metadata(...), apply( VerilogPlaceholderPass() ), apply( VerilogTranslationPass() )).
+# Added after seeded changes C13-C (v_libs de-duplicated through a set: library order depended on the hash
+# seed) and C13-D (explicit_module_name honoured for the top only: a child instantiated under a name that is
+# never defined).
+_META = {}
+_META["meta_child_explicit_names"] = _D('''
+    from pymtl3.passes.backends.verilog import VerilogTranslationPass
+    from pymtl3.passes.backends.yosys import YosysTranslationPass
+    class Incr( Component ):
+      def construct( s, amount=1 ):
+        s.in_ = InPort( 8 )
+        s.out = OutPort( 8 )
+        K = amount
+        @update
+        def up():
+          s.out @= s.in_ + K
+    class Stage( Component ):
+      def construct( s ):
+        s.in_ = InPort( 8 )
+        s.out = OutPort( 8 )
+        s.inc = Incr( 3 )
+        s.inc.in_ //= s.in_
+        s.out //= s.inc.out
+    class Top( Component ):
+      def construct( s ):
+        s.in_ = InPort( 8 )
+        s.out = OutPort( 8 )
+        s.first  = Stage()
+        s.second = Incr( 5 )
+        s.third  = Stage()
+        s.first.in_  //= s.in_
+        s.second.in_ //= s.first.out
+        s.third.in_  //= s.second.out
+        s.out        //= s.third.out
+    def build():
+      return Top()
+    def prepare( top ):
+      for P in ( VerilogTranslationPass, YosysTranslationPass ):
+        top.set_metadata( P.explicit_module_name, "TopChip" )
+        top.first.set_metadata( P.explicit_module_name, "StageMacro" )
+        top.second.set_metadata( P.explicit_module_name, "Bump" )
+    ''')
+_META["meta_grandchild_explicit_name"] = _D('''
+    from pymtl3.passes.backends.verilog import VerilogTranslationPass
+    from pymtl3.passes.backends.yosys import YosysTranslationPass
+    class Leaf( Component ):
+      def construct( s ):
+        s.in_ = InPort( 4 )
+        s.out = OutPort( 4 )
+        s.out //= lambda: ~s.in_
+    class Mid( Component ):
+      def construct( s ):
+        s.in_ = InPort( 4 )
+        s.out = OutPort( 4 )
+        s.l = [ Leaf() for _ in range(2) ]
+        s.l[0].in_ //= s.in_
+        s.l[1].in_ //= s.l[0].out
+        s.out //= s.l[1].out
+    class Top( Component ):
+      def construct( s ):
+        s.in_ = InPort( 4 )
+        s.out = OutPort( 4 )
+        s.m = Mid()
+        s.m.in_ //= s.in_
+        s.out //= s.m.out
+    def build():
+      return Top()
+    def prepare( top ):
+      for P in ( VerilogTranslationPass, YosysTranslationPass ):
+        top.m.l[1].set_metadata( P.explicit_module_name, "LeafHardMacro" )
+        top.set_metadata( P.explicit_file_name, "chip_top" )
+    ''')
+_META["ph_vlibs_multi"] = _D('''
+    import os
+    from pymtl3.passes.backends.verilog import VerilogPlaceholder, VerilogPlaceholderPass
+    _HERE = os.path.dirname( os.path.abspath( __file__ ) )
+    _LIBS = [ "Zeta", "Alpha", "Mid", "Beta", "Omega", "Gamma" ]
+    def _w( name, text ):
+      p = os.path.join( _HERE, name )
+      if not os.path.exists( p ):
+        with open( p, "w" ) as f: f.write( text )
+      return p
+    for _i, _n in enumerate( _LIBS ):
+      _w( "phlib_%s.v" % _n, "module PhLib%s ( input logic [7:0] a, output logic [7:0] y );\\n  assign y = a + 8\'d%d;\\nendmodule\\n" % ( _n, _i + 1 ) )
+    _w( "PhTop.v", "module PhTop ( input logic clk, input logic reset, input logic [7:0] d, output logic [7:0] q );\\n"
+        "  logic [7:0] t0, t1;\\n  PhLibZeta u0 ( .a( d ), .y( t0 ) );\\n  PhLibGamma u1 ( .a( t0 ), .y( t1 ) );\\n  assign q = t1;\\nendmodule\\n" )
+    class PhTop( VerilogPlaceholder, Component ):
+      def construct( s ):
+        s.d = InPort( Bits8 )
+        s.q = OutPort( Bits8 )
+        s.set_metadata( VerilogPlaceholderPass.src_file, os.path.join( _HERE, "PhTop.v" ) )
+        s.set_metadata( VerilogPlaceholderPass.top_module, "PhTop" )
+        s.set_metadata( VerilogPlaceholderPass.v_libs, [ os.path.join( _HERE, "phlib_%s.v" % n ) for n in _LIBS ] )
+    class Top( Component ):
+      def construct( s ):
+        s.d = InPort( Bits8 )
+        s.q = OutPort( Bits8 )
+        s.ph = PhTop()
+        s.ph.d //= s.d
+        s.q //= s.ph.q
+    def build():
+      return Top()
+    def prepare( top ):
+      top.apply( VerilogPlaceholderPass() )
+    ''')
+# cases of the repository that need the placeholder pass / carry metadata
+_META_REPO = [("pymtl3.passes.backends.verilog.testcases.test_cases", n) for n in
+              ("CasePlaceholderTranslationVReg", "CasePlaceholderTranslationRegIncr",
+               "CaseVLibsTranslation", "CaseMultiPlaceholderImport")]
+# (not CaseVIncludePopulation: its hand-written VRegPassThrough.v instantiates VReg without including it - "we
+#  assume the include directory is passed to Verilator" - so the undefined module name is in the user's own text)
+# cases of the general list that must be in every tier (translation metadata on a sub-component)
+_MUST_CASES = ["CaseChildExplicitModuleName"]
+
+
 def write(ddir, repo, tier, rng):
     """Write the corpus into ddir; return list of dict(id, file, group)."""
     os.makedirs(ddir, exist_ok=True)
@@ -855,10 +973,19 @@ def write(ddir, repo, tier, rng):
         put("std_" + i, "stdlib", {"std_" + i + ".py": PRE + imp + "\ndef build():\n  return " + expr + "\n"})
     for i, imp, expr in _EXAMPLES:
         put("ex_" + i, "example", {"ex_" + i + ".py": PRE + imp + "\ndef build():\n  return " + expr + "\n"})
+    for i, src in _META.items():
+        put(i, "meta", {i + ".py": PRE + src})
+    for modn, n in _META_REPO:
+        put("vcase_" + n, "meta", {"vcase_" + n + ".py":
+            "from %s import %s\nfrom pymtl3.passes.backends.verilog import VerilogPlaceholderPass\n"
+            "def build():\n  return %s.DUT()\ndef prepare( top ):\n  top.apply( VerilogPlaceholderPass() )\n" % (modn, n, n)})
     cases = repo_case_names(repo)
     if tier == "quick":
-        cases = sorted(rng.sample(cases, min(len(cases), 70)))
+        cases = sorted(set(rng.sample(cases, min(len(cases), 70))) | {n for n in _MUST_CASES if n in cases})
     for n in cases:
         put("case_" + n, "repo", {"case_" + n + ".py":
             "from pymtl3.passes.testcases.test_cases import %s\ndef build():\n  return %s.DUT()\n" % (n, n)})
+    only = os.environ.get("VERIF_C13_ONLY")          # development: restrict the corpus to ids matching a regex
+    if only:
+        out = [d for d in out if re.search(only, d["id"])]
     return out
